@@ -508,7 +508,9 @@ def gas(draw, prof, n, eq_sol, redox, temp):
 
 
 @st.composite
-def ss(draw, prof, n):
+def ss(draw, prof, n, robust=False):
+    """robust: every end-member present in a substantial amount and |a0| + |a1| <= 1.4 (no miscibility gap): the setting
+    in which the follow-up of a restored solid solution is compared with the original"""
     P = PROFILES[prof]
     k = draw(st.integers(1, 2))
     sets = draw(st.lists(st.sampled_from(list(range(len(P["ss_sets"])))), min_size=k, max_size=k, unique=True))
@@ -525,14 +527,14 @@ def ss(draw, prof, n):
         L.append(" SS%d" % j)
         # two thirds of the solid solutions have every end-member present in a substantial amount (no in/out switching of
         # the solid solution, a well-defined composition); the rest may start from zero or trace amounts
-        solid = draw(st.integers(0, 2)) > 0
+        solid = robust or draw(st.integers(0, 2)) > 0
         for c in comps:
             amt = cg.logu(1e-3, 0.1, 3) if solid else st.one_of(st.just(0.0), cg.logu(1e-5, 0.1, 3))
             L.append("  -comp %s %s" % (c, fmt(draw(amt))))
         comps_all += comps
         if nonideal:
             form = draw(st.sampled_from(["Gugg_nondim", "Gugg_kJ", "Gugg_nondim", "tempk"]))
-            a0 = draw(cg.uni(-1.0, 1.9, 3))
+            a0 = draw(cg.uni(-1.0, 1.0, 3)) if robust else draw(cg.uni(-1.0, 1.9, 3))
             a1 = draw(st.one_of(st.just(0.0), cg.uni(-0.4, -0.05, 2), cg.uni(0.05, 0.4, 2), cg.uni(0.05, 0.4, 2)))
             if form == "Gugg_kJ":
                 L.append("  -Gugg_kJ %s %s" % (fmt(float("%.4g" % (a0 * 2.479))), fmt(float("%.4g" % (a1 * 2.479)))))
@@ -637,7 +639,12 @@ def case_strategy(draw, tier="quick"):
     kin_rates, pp_names, gas_names, ss_comps = [], [], [], []
     ss_t = None
     if "ss" in want:
-        ss_t, ss_comps, ss_lb = draw(ss(prof, c))
+        # half of the cells with a solid solution hold no pure phases, gas phase or kinetic reactants next to it and a
+        # well-behaved solid solution: only there is the engine's answer independent of its starting point (see c10.py)
+        ss_robust = draw(st.booleans())
+        if ss_robust:
+            want -= {"pp", "gas", "kin"}
+        ss_t, ss_comps, ss_lb = draw(ss(prof, c, ss_robust))
     # phases an exchanger / surface may be tied to: sparingly soluble (never exhausted at 10 mol), not in a solid solution
     relp = [m for m in ("Calcite", "Gypsum", "Dolomite", "Quartz", "Barite", "Celestite") if m in P["minerals"] and m not in ss_comps]
     if "kin" in want:
